@@ -9,7 +9,8 @@ import (
 
 // Rec is the trace recorder: one JSON object per line, totally ordered by the mutex.
 type Rec struct {
-	mu sync.Mutex
+	Null bool // drop everything without taking the mutex (the race workload must not be serialised by the recorder)
+	mu   sync.Mutex
 	f  *os.File
 	w  *bufio.Writer
 	N  int
@@ -27,7 +28,7 @@ func NewRec(path string) *Rec {
 type E map[string]interface{}
 
 func (r *Rec) Emit(e E) {
-	if r == nil {
+	if r == nil || r.Null {
 		return
 	}
 	b, err := json.Marshal(e)
@@ -42,7 +43,7 @@ func (r *Rec) Emit(e E) {
 }
 
 func (r *Rec) Close() {
-	if r == nil {
+	if r == nil || r.Null {
 		return
 	}
 	r.mu.Lock()
